@@ -9,33 +9,63 @@ open Spydr.Verilog
 
 /-! ### from the writer's netlist to the `celldefine` modules it prints -/
 
-/-- `_write_module_body_ports` for a port of a primitive without inner nets: `dir [msb:lsb] name ;` with the port's own range -/
-def astLeafPort (p : Text.WPort) : Option PDecl :=
+/-- `_write_module_body_ports` for a port of a primitive: `dir [msb:lsb] name ;` with the port's own range — the port has no
+    inner net (a primitive library), or is wired pin by pin to the whole net of its own name (what the Verilog reader
+    builds for a `celldefine` module) -/
+def astLeafPort (r : Text.WDef) (p : Text.WPort) : Option PDecl :=
   match p.name, dirOfS p.dir with
   | some nm, some dir =>
-    if p.pins.all (fun b => b.isNone) ∧ 1 ≤ p.width ∧ p.attrs.getD [] = [] then
-      some ⟨nm, dir, emitDeclRange p.lower p.width, []⟩
+    if 1 ≤ p.width ∧ p.attrs.getD [] = [] then
+      if p.pins.all (fun b => b.isNone) then some ⟨nm, dir, emitDeclRange p.lower p.width, []⟩
+      else
+        match r.cables.find? (fun c => c.name == nm) with
+        | some c =>
+          if p.lower = c.lower ∧ p.width = c.width ∧ p.pins = (cableBits nm c.lower c.width).items.map some ∧
+              emitHeaderPort (Text.envOf r) nm p.pins = some none then
+            some ⟨nm, dir, emitDeclRange p.lower p.width, []⟩
+          else none
+        | none => none
     else none
   | _, _ => none
 
-def astLeaf (r : Text.WDef) : Option WLeaf := (r.ports.mapM astLeafPort).map (fun ps => ⟨r.name, ps⟩)
+def astLeaf (r : Text.WDef) : Option WLeaf := (r.ports.mapM (astLeafPort r)).map (fun ps => ⟨r.name, ps⟩)
 
 /-- the interface of a definition of the netlist: name, direction, base index, width of every port, in order -/
 def ifaceT (r : Text.WDef) : Iface := r.ports.map (fun p => (p.name, dirV p.dir, p.lower, p.width))
 
-theorem astLeafPort_iface (p : Text.WPort) (q : PDecl) (h : astLeafPort p = some q) :
-    (some q.name, q.dir, stubLo q.rng, 1 + stubExtra q.rng) = (p.name, dirV p.dir, p.lower, p.width) := by
+/-- what `astLeafPort` says of the port it accepts -/
+theorem astLeafPort_spec (r : Text.WDef) (p : Text.WPort) (q : PDecl) (h : astLeafPort r p = some q) :
+    ∃ nm dir, p.name = some nm ∧ dirOfS p.dir = some dir ∧ 1 ≤ p.width ∧ p.attrs.getD [] = [] ∧
+      q = ⟨nm, dir, emitDeclRange p.lower p.width, []⟩ ∧
+      (p.pins.all (fun b => b.isNone) = true ∨
+        ∃ c, r.cables.find? (fun c => c.name == nm) = some c ∧ p.lower = c.lower ∧ p.width = c.width ∧
+          p.pins = (cableBits nm c.lower c.width).items.map some ∧ emitHeaderPort (Text.envOf r) nm p.pins = some none) := by
   unfold astLeafPort at h
   split at h
   · rename_i nm dir hn hd
     split at h
     · rename_i hc
-      simp only [Option.some.injEq] at h
-      rw [← h]
-      obtain ⟨s1, s2, _⟩ := stub_declRange p.lower p.width hc.2.1
-      simp only [s1, s2, hn, dirV, hd, Option.getD_some]
+      split at h
+      · rename_i hfree
+        simp only [Option.some.injEq] at h
+        exact ⟨nm, dir, hn, hd, hc.1, hc.2, h.symm, Or.inl hfree⟩
+      · split at h
+        · rename_i c hfc
+          split at h
+          · rename_i hw
+            simp only [Option.some.injEq] at h
+            exact ⟨nm, dir, hn, hd, hc.1, hc.2, h.symm, Or.inr ⟨c, hfc, hw.1, hw.2.1, hw.2.2.1, hw.2.2.2⟩⟩
+          · cases h
+        · cases h
     · cases h
   · cases h
+
+theorem astLeafPort_iface (r : Text.WDef) (p : Text.WPort) (q : PDecl) (h : astLeafPort r p = some q) :
+    (some q.name, q.dir, stubLo q.rng, 1 + stubExtra q.rng) = (p.name, dirV p.dir, p.lower, p.width) := by
+  obtain ⟨nm, dir, hn, hd, hw, _, e, _⟩ := astLeafPort_spec r p q h
+  rw [e]
+  obtain ⟨s1, s2, _⟩ := stub_declRange p.lower p.width hw
+  simp only [s1, s2, hn, dirV, hd, Option.getD_some]
 
 theorem mapM_map_eq {α β γ : Type} (f : α → Option β) (g : β → γ) (h : α → γ) (hfg : ∀ a b, f a = some b → g b = h a) :
     ∀ (l : List α) (r : List β), l.mapM f = some r → r.map g = l.map h := by
@@ -61,7 +91,7 @@ theorem astLeaf_iface (r : Text.WDef) (m : WLeaf) (h : astLeaf r = some m) : m.n
   obtain ⟨ps, hps, e⟩ := h
   rw [← e]
   refine ⟨rfl, ?_⟩
-  exact mapM_map_eq astLeafPort _ _ astLeafPort_iface r.ports ps hps
+  exact mapM_map_eq (astLeafPort r) _ _ (astLeafPort_iface r) r.ports ps hps
 
 theorem instStep2_lib (d : Def) (ls : List Def) (i : NInst) (d' : Def) (ls' : List Def) (h : instStep2 d ls i = some (d', ls')) :
     d'.lib = d.lib := by
